@@ -3,8 +3,8 @@
     binary64 (Floats.SpecFloat at precision 53, emax 1024, round to nearest even).
     The scanner lemmas the operator theorems rest on are proved in Proofs/Scan.v and Proofs/Scan2.v. *)
 From Coq Require Import List Bool ZArith.
-From JL Require Import Base.Json Base.Lits Base.F64 Base.Dec2Flt Base.Monad Model.JsOp Model.Ops Spec.Specs Spec.OpSpecs.
-From JL Require Import Proofs.Arith Proofs.OpsCorrect Proofs.Scan Proofs.Scan2.
+From JL Require Import Base.Json Base.Lits Base.F64 Base.Str Base.Dec2Flt Base.Monad Model.JsOp Model.Ops Spec.Specs Spec.OpSpecs.
+From JL Require Import Proofs.Arith Proofs.OpsCorrect Proofs.Scan Proofs.Scan2 Proofs.CharTables Gen.CharTable.
 From Coq Require Import String NArith ZArith.
 Local Open Scope string_scope.
 Import ListNotations.
@@ -56,6 +56,25 @@ Proof.
   unfold canonical_num. destruct (is_finite f); reflexivity.
 Qed.
 Print Assumptions C10_error_iff.
+
+(** the literal tables of src/js_op.rs, regenerated from the source on every run, are the model's:
+    the white space trimmed before a string is read as a number, and the radix prefixes *)
+Theorem C10_source_tables :
+  (forall c, in_ranges code_js_ws_ranges c = is_js_ws c) /\ (forall s, code_radix s = model_radix s) /\
+  (forall s0, str_to_number s0 =
+     let s := trim_both is_js_ws s0 in
+     match s with
+     | nil => Some f64_zero
+     | _ => match model_radix s with
+            | Some rdx => radix_digits_to_number (skipn 2 s) rdx
+            | None => match parse_decimal_prefix s with
+                      | Some (v, len) => if Nat.eqb len (List.length s) then Some v else None
+                      | None => None
+                      end
+            end
+     end).
+Proof. exact (conj code_js_ws_is_model (conj code_radix_is_model str_to_number_uses_model_radix)). Qed.
+Print Assumptions C10_source_tables.
 
 Example C10_nonvacuous :
   arith_spec OAdd [Num (Float (dec_to_f64 false 1 19)); Num (PosInt 0%N)] = Ok (Num (PosInt 10000000000000000000%N)) /\
